@@ -15,6 +15,9 @@ mod sealed;
 mod vertex_info;
 
 pub use candidates::{CandidateValue, Range};
+#[cfg(feature = "verif")]
+#[doc(hidden)]
+pub use candidates::verif_hooks as verif_candidates;
 pub use dynamic::DynamicallyResolvedValue;
 pub use vertex_info::{RequiredProperty, VertexInfo};
 
